@@ -451,8 +451,76 @@ func connectivesOverManyItems(c *h.Ctx) {
 	}
 }
 
+// relatedOperands: the connectives over conditions that look at the same
+// member path - a range check written as two comparisons, a list of
+// alternatives written as a chain of equalities. Each comparison quantifies
+// over the items of its path on its own (and decides on its own what an
+// incomparable pair means); the connective combines the truth values and
+// nothing else, however the chain is grouped.
+func relatedOperands(c *h.Ctx) {
+	docs := []string{`{"a":[1,5],"s":1}`, `{"a":[0,3,"x"],"s":"one"}`, `{"a":[2],"s":true}`, `{"a":[],"s":null}`, `{"a":[1,2,3,4,5,6],"s":2}`, `{"a":[10,-1],"s":[1,"one"]}`}
+	paths := []string{"$.a[*]", "$.a", "$.s", "$.s[*]"}
+	lits := []string{"1", "2", "5", "0", `"one"`, "true"}
+	cmps := []string{"==", "!=", "<", "<=", ">", ">="}
+	idx := 0
+	for _, d := range docs {
+		for _, lax := range []bool{true, false} {
+			for _, pth := range paths {
+				e := &c11Eval{c: c, doc: d, vars: stdVars, lax: lax, useNum: idx%2 == 1}
+				var atoms, eqs []tv
+				for _, op := range cmps {
+					for li, lit := range lits {
+						txt := pth + " " + op + " " + lit
+						if (li+len(op))%2 == 1 {
+							txt = lit + " " + map[string]string{"==": "==", "!=": "!=", "<": ">", "<=": ">=", ">": "<", ">=": "<="}[op] + " " + pth
+						}
+						t, isErr, ok, _, _ := e.run(txt, false, false)
+						if !ok || isErr {
+							continue
+						}
+						atoms = append(atoms, tv{txt, t, false})
+						if op == "==" || op == "!=" && li < 2 {
+							eqs = append(eqs, tv{txt, t, false})
+						}
+					}
+				}
+				for _, a := range atoms {
+					for _, b := range atoms {
+						idx++
+						if !c.Mine(idx) {
+							continue
+						}
+						ft := h.F("left", tvName(a), "right", tvName(b), "kind", "same-path")
+						e.judge("related.and", a.text+" && "+b.text, expectBin("&&", a, b), ft)
+						e.judge("related.or", a.text+" || "+b.text, expectBin("||", a, b), ft)
+					}
+				}
+				for _, a := range eqs {
+					for _, b := range eqs {
+						for _, cc := range eqs {
+							idx++
+							if !c.Mine(idx) {
+								continue
+							}
+							ft := h.F("kind", "chain-of-three", "values", tvName(a)+tvName(b)+tvName(cc))
+							or := outcomeSet{vals: map[model.Tri]bool{model.Or(model.Or(a.t, b.t), cc.t): true}}
+							and := outcomeSet{vals: map[model.Tri]bool{model.And(model.And(a.t, b.t), cc.t): true}}
+							e.judge("related.or", a.text+" || "+b.text+" || "+cc.text, or, ft)
+							e.judge("related.or", a.text+" || ("+b.text+" || "+cc.text+")", or, ft)
+							e.judge("related.and", a.text+" && "+b.text+" && "+cc.text, and, ft)
+							e.judge("related.and", a.text+" && ("+b.text+" && "+cc.text+")", and, ft)
+						}
+					}
+				}
+			}
+		}
+	}
+	c.Sample("related", map[string]string{"expr": `$.a >= 1 && $.a <= 3`, "doc": `{"a":[0,5]}`, "expected": "true in lax mode: 5 is at least 1 and 0 is at most 3 - two separate existential comparisons"})
+}
+
 func runC11(c *h.Ctx) {
 	runTables(c)
+	relatedOperands(c)
 	existsStrictness(c)
 	existsSelective(c)
 	connectivesOverManyItems(c)
